@@ -597,6 +597,33 @@ func ruleOPT(c *Ctx) {
 		return true
 	})
 	c.check(endOK, "OPT.1/end-maps-to-end", opt, "a jump to the end of the old stream is retargeted to the end of the new stream", "the branch that retargets jumps to the function end does not map len(old instructions) to len(new instructions)")
+	// OPT.4: the source map is rebuilt into a fresh map that replaces the old one
+	freshMap := false
+	ast.Inspect(opt.Body, func(nd ast.Node) bool {
+		as, ok := nd.(*ast.AssignStmt)
+		if !ok || len(as.Lhs) != 1 || len(as.Rhs) != 1 || !strings.HasSuffix(w.Src(as.Lhs[0]), ".SourceMap") {
+			return true
+		}
+		id, ok := ast.Unparen(as.Rhs[0]).(*ast.Ident)
+		if !ok {
+			return true
+		}
+		obj := p.TypesInfo.Uses[id]
+		ast.Inspect(opt.Body, func(m ast.Node) bool {
+			d, ok := m.(*ast.AssignStmt)
+			if !ok || len(d.Lhs) != 1 || len(d.Rhs) != 1 {
+				return true
+			}
+			if lid, ok := d.Lhs[0].(*ast.Ident); ok && p.TypesInfo.Defs[lid] == obj {
+				if call, ok := d.Rhs[0].(*ast.CallExpr); ok && IsBuiltinCall(p, call, "make") {
+					freshMap = true
+				}
+			}
+			return true
+		})
+		return true
+	})
+	c.check(freshMap, "OPT.4/source-map-rebuilt", opt, "the function's source map is replaced by a map built in this pass (entries of removed instructions disappear)", "optimizeFunc does not replace the source map with a freshly built one: entries of removed instructions survive and error positions of moved instructions can resolve to dead code")
 	// a jump destination revives code: `case dsts[pos]: … deadCode = false`
 	revive := containsNode(opt.Body, func(nd ast.Node) bool {
 		cc, ok := nd.(*ast.CaseClause)
